@@ -82,6 +82,7 @@ type Interp struct {
 	refine      map[string][2]*big.Int // path-local interval refinements by term key
 	numLeaves   []*Term                // integer-valued symbolic leaves of documents
 	tok         *tokenMode
+	onceDone    map[*StructV]bool
 	dom         map[string]*smallDom // finite domains of small-range variables
 	entangled   map[string]bool      // variables that occur in multi-variable conjuncts
 	varsMemo    map[string][]string
@@ -883,6 +884,22 @@ func (in *Interp) CallFunction(fn *ssa.Function, args []Value, bindings []Value)
 		}
 	}()
 
+	if lib && fn.Pkg == in.W.Root && (fn.Name() == "Compile" || fn.Name() == "MustCompile") && fn.Signature.Recv() == nil {
+		defer func() {
+			if r := recover(); r != nil {
+				panic(r)
+			}
+		}()
+		res := in.runBody(fn, args, bindings)
+		// everything a compiled Expression holds is shared between later calls
+		setOriginDeep(res, OrgAST, map[interface{}]bool{})
+		return res
+	}
+	return in.runBody(fn, args, bindings)
+}
+
+// runBody interprets the SSA body of fn.
+func (in *Interp) runBody(fn *ssa.Function, args []Value, bindings []Value) Value {
 	fr := &frame{fn: fn, env: make(map[ssa.Value]Value, 16)}
 	for i, p := range fn.Params {
 		fr.env[p] = args[i]
